@@ -24,6 +24,7 @@ SEEDS = {
  'C12a': ('C12', 'backmp11: result pre-initialised and OR-ed through a reference, handler assignment dropped', 'exception in a region dispatched after a region that already handled the event'),
  'C12b': ('C12', 'backmp11 process_completion_transition: the catch handler returns HANDLED_FALSE at once, skipping m_event_processing = false', 'throw from a behaviour of a completion transition reached through process_event, nothing else pending'),
  'C13a': ('C13', 'backmp11 favor_compile_time: transition_chain::execute starts from FALSE and its caller overwrites the submachine result', 'submachine answers GUARD_REJECT and the composite state has no enabled outgoing row for the event (favor_compile_time only)'),
+ 'C13b': ('C13', 'backmp11 favor_runtime_speed needs_forward_transition: no longer looks into sub-submachines (a type computation)', 'three-level hierarchy, event only the innermost machine has rows for, middle machine does not mention it'),
  'C14a': ('C14', 'puml parse_row_right: action length clamped to 0 when the guard is written before the action list', 'a transition line of the form  A -> B : ev [guard] / action'),
  'C15a': ('C15', 'ShallowHistoryImpl::operator=: remembered states loaded from the source\'s initial states', 'copy of a machine whose history region was left in a non-initial state, followed by a history re-entry'),
  'C16a': ('C16', 'history policies: serialize no longer archives m_initialStates (the memory of AlwaysHistory)', 'AlwaysHistory submachine left in a non-initial state, saved, restored, re-entered'),
@@ -38,6 +39,7 @@ SEEDS = {
  'C18a': ('C18', 'back defer_event_kleene_helper: binds the functor argument ev (default-constructed type carrier) instead of any_cast<Event>(m_event)', 'Kleene row that defers (front::Defer) an event whose payload differs from a default-constructed one'),
  'C02b': ('C02', 'backmp11 state_visitor_impl active visit: loops interchanged (state list outer, regions inner)', 'exit of a multi-region machine while an earlier region is in a state with a larger id than a later region'),
  'C03b': ('C03', 'back start(): re-initialisation of m_states from the initial states removed ("the constructor did it")', 'stop() and start() again with a region off its initial state'),
+ 'C18b': ('C18', 'back defer_event_kleene_helper binds the type carrier ev instead of any_cast<Event>(m_event) (the same edit as C18a, found independently)', 'Kleene row that defers an event with a non-default payload'),
  'C19a': ('C19', 'back g_row_: the after_action store was dropped', 'policy after_transition_action, guard-only row, observation from the target entry'),
  'C19b': ('C19', 'backmp11 transition::execute: the after_action state switch moved inside `if constexpr (HasAction)`', 'active_state_switch_after_transition_action, external row without an action, observation from the target entry'),
  'C20a': ('C20', 'basic_polymorphic_base move assignment: control block replaced before destroy()', 'deque erase in the middle with a neighbour of another storage class / destructor'),
